@@ -25,7 +25,7 @@ func init() { register(c15{}) }
 
 func (c15) ID() string { return "C15" }
 func (c15) Rule() string {
-	return "the real gts binary (--no-cache) is run on generated GenBank records (20..60 residues that are pairwise distinct complement-invariant printable ids, 0..7 uniquely labelled features over ranges/points/joins/complements, linear and circular) and on the phiX174 corpus record, with locators built from points, ranges, complement(range), selectors by key and /label regexp matching 0..k features, each optionally with a modifier that stays in range (for gts rotate and single-cut gts split on circular records also positions before residue 1 or after the last residue, which wrap); commands delete [-e], insert [-e] (literal and file guests), infix [-e], split, rotate, extract [-v], each also with -F fasta. stdout is parsed back with seqio. The located regions are obtained from the same locator through the library (locator semantics are C08's); the expected output is computed by the model from the regions: delete -> residues minus the union, one record, features = image under the deletion of the maximal runs; insert/infix -> one guest copy per located region at its Head() in input coordinates, features = image under the insertions; split -> pieces concatenate to the input (circular: to the input rotated to a cut), cut set = one acceptable position per region (Head, or the lower coordinate for reverse-strand regions), fragments of each feature together cover its residues; rotate -> first located Head at index 0, features cyclically shifted; extract -> one record per distinct region shorter than the record (a single region as long as the record is don't-care), residues = model extraction, -v -> the maximal unlocated stretches (the whole record when nothing is located). non-trivial: >=2 located regions, or regions that overlap/nest/abut/are unsorted; distinct: (command line, input record)."
+	return "the real gts binary (--no-cache) is run on generated GenBank records (20..60 residues that are pairwise distinct complement-invariant printable ids, 0..7 uniquely labelled features over ranges/points/joins/complements, linear and circular) and on the phiX174 corpus record, with locators built from points, ranges, complement(range), selectors by key and /label regexp matching 0..k features, each optionally with a modifier that stays in range (for gts rotate and single-cut gts split on circular records also positions before residue 1 or after the last residue, which wrap); commands delete [-e], insert [-e] (literal and file guests), infix [-e], split, rotate, extract [-v], each also with -F fasta. stdout is parsed back with seqio. Every third case is also run with the cache on, after the sibling invocation (-e or -v toggled; rotate for split and split for rotate) on the same input over the same cache directory, twice: it must print what the --no-cache run printed. The located regions are obtained from the same locator through the library (locator semantics are C08's); the expected output is computed by the model from the regions: delete -> residues minus the union, one record, features = image under the deletion of the maximal runs; insert/infix -> one guest copy per located region at its Head() in input coordinates, features = image under the insertions; split -> pieces concatenate to the input (circular: to the input rotated to a cut), cut set = one acceptable position per region (Head, or the lower coordinate for reverse-strand regions), fragments of each feature together cover its residues; rotate -> first located Head at index 0, features cyclically shifted; extract -> one record per distinct region shorter than the record (a single region as long as the record is don't-care), residues = model extraction, -v -> the maximal unlocated stretches (the whole record when nothing is located). non-trivial: >=2 located regions, or regions that overlap/nest/abut/are unsorted; distinct: (command line, input record)."
 }
 func (c15) Assumptions() []string {
 	return []string{"seqio's scanner as the reader of gts output (itself the subject of C01/C07/C16/C17)", "the library's AsLocator for which regions a locator denotes (subject of C08)", "Go toolchain; harness models"}
@@ -35,7 +35,7 @@ func (c15) RequiredBuckets(tier string) []string {
 	for _, k := range []string{"delete", "delete -e", "insert", "insert -e", "infix", "split", "rotate", "extract", "extract -v"} {
 		out = append(out, "cmd:"+k)
 	}
-	out = append(out, "sites:0", "sites:1", "sites:2+", "sites:overlapping", "sites:duplicate-head", "sites:reverse-strand", "sites:unsorted", "topology:circular", "topology:linear", "format:fasta", "format:genbank", "input:corpus", "input:generated", "locator:modifier", "sites:beyond-the-origin-of-a-circular-record")
+	out = append(out, "sites:0", "sites:1", "sites:2+", "sites:overlapping", "sites:duplicate-head", "sites:reverse-strand", "sites:unsorted", "topology:circular", "topology:linear", "format:fasta", "format:genbank", "input:corpus", "input:generated", "locator:modifier", "sites:beyond-the-origin-of-a-circular-record", "cache-on:after-sibling")
 	return out
 }
 func (c15) Findings() []fw.Finding {
@@ -265,19 +265,30 @@ func (x *c15run) one(rec *c15rec, cmd string, flags []string, locstr string, r *
 		name += " " + f
 	}
 	var guestB []byte
+	var guests [][]byte
 	files := map[string][]byte{}
 	stdin := rec.text
 	switch cmd {
 	case "insert":
 		guestB = gen.UniqueBytes(60, 1+r.Intn(4))
+		guests = [][]byte{guestB}
 		if r.Intn(2) == 0 {
 			args = append(args, locstr, "@"+string(guestB))
 		} else {
-			files["guest.fa"] = []byte(">g\n" + string(guestB) + "\n")
+			gf := ">g\n" + string(guestB) + "\n"
+			if r.Intn(2) == 0 {
+				// a guest file of two records: the host once with each.
+				g2 := gen.UniqueBytes(62, 2+r.Intn(3))
+				guests = append(guests, g2)
+				gf += ">g2\n" + string(g2) + "\n"
+				c.Bucket("insert:two-guests")
+			}
+			files["guest.fa"] = []byte(gf)
 			args = append(args, locstr, "guest.fa")
 		}
 	case "infix":
 		guestB = gen.UniqueBytes(60, 1+r.Intn(4))
+		guests = [][]byte{guestB}
 		files["host.gb"] = rec.text
 		stdin = []byte(">g\n" + string(guestB) + "\n")
 		args = append(args, locstr, "host.gb")
@@ -500,6 +511,59 @@ func (x *c15run) one(rec *c15rec, cmd string, flags []string, locstr string, r *
 	}
 	viol := func(cls, exp, obs string) { c.Violate(cls+":"+name, enc, exp, obs) }
 
+	// The same command as users run it (cache on), right after its nearest
+	// sibling ran on the same input over the same cache directory: the option
+	// toggled (-e, -v), or rotate for split and split for rotate. What it
+	// prints must be what it prints without the cache.
+	if r.Intn(3) == 0 {
+		main := append([]string{}, args[:len(args)-1]...)
+		sib := append([]string{}, main...)
+		toggle := func(f string) {
+			for i, a := range sib {
+				if a == f {
+					sib = append(sib[:i], sib[i+1:]...)
+					return
+				}
+			}
+			sib = append(sib, f)
+		}
+		switch cmd {
+		case "delete", "insert", "infix":
+			toggle("-e")
+		case "extract":
+			toggle("-v")
+		case "rotate":
+			sib[0] = "split"
+		case "split":
+			sib[0] = "rotate"
+		}
+		x.env.ResetCache()
+		x.env.Run(sib, stdin, nil, 60*time.Second)
+		// and the same command line with other content in the file it names.
+		for fn, fb := range files {
+			other := bytes.Replace(fb, []byte("DEFINITION  generated"), []byte("DEFINITION  another record"), 1)
+			if fn == "guest.fa" {
+				other = []byte(">another guest\n" + string(gen.UniqueBytes(58, 3)) + "\n")
+			}
+			if bytes.Equal(other, fb) {
+				continue
+			}
+			os.WriteFile(x.env.File(fn), other, 0644)
+			x.env.Run(main, stdin, nil, 60*time.Second)
+			os.WriteFile(x.env.File(fn), fb, 0644)
+			c.Bucket("cache-on:after-other-file-content")
+		}
+		for pass := 0; pass < 2; pass++ {
+			cr := x.env.Run(main, stdin, nil, 60*time.Second)
+			if cr.TimedOut || cr.Exit != res.Exit || !bytes.Equal(cr.Stdout, res.Stdout) {
+				c.Violate("cached-run-differs:"+name, enc+fmt.Sprintf("  (cache on, pass %d after: gts %s)", pass+1, strings.Join(sib, " ")),
+					fmt.Sprintf("exit %d and the %d bytes of the --no-cache run", res.Exit, len(res.Stdout)), fmt.Sprintf("exit %d, %d bytes: %s", cr.Exit, len(cr.Stdout), clipB(cr.Stdout, 400)))
+				return
+			}
+		}
+		c.Bucket("cache-on:after-sibling")
+	}
+
 	switch cmd {
 	case "delete":
 		if len(outs) != 1 {
@@ -548,40 +612,44 @@ func (x *c15run) one(rec *c15rec, cmd string, flags []string, locstr string, r *
 			}
 		}
 	case "insert", "infix":
-		if len(outs) != 1 {
-			viol("record-count", "1", fmt.Sprint(len(outs)))
+		// one output record per guest record, each the host with that guest.
+		if len(outs) != len(guests) {
+			viol("record-count", fmt.Sprint(len(guests)), fmt.Sprint(len(outs)))
 			return
 		}
-		idx := append([]int(nil), heads...)
-		sort.Sort(sort.Reverse(sort.IntSlice(idx)))
-		want := append([]byte(nil), rec.bytes...)
-		for _, i := range idx {
-			want = append(append(append([]byte{}, want[:i]...), guestB...), want[i:]...)
-		}
-		if !bytes.Equal(outs[0].Bytes(), want) {
-			viol("residues", fmt.Sprintf("%q (guest %q at %v)", want, guestB, idx), fmt.Sprintf("%q", outs[0].Bytes()))
-			return
-		}
-		if fasta {
-			return
-		}
-		embed := len(flags) > 0
-		got := x.featuresByLabel(outs[0])
-		for _, f := range rec.tab {
-			exp := model.ImageIdentity(model.Parts(f.Loc))
+		for gi, guestB := range guests {
+			out0 := outs[gi]
+			idx := append([]int(nil), heads...)
+			sort.Sort(sort.Reverse(sort.IntSlice(idx)))
+			want := append([]byte(nil), rec.bytes...)
 			for _, i := range idx {
-				ii := i
-				exp = model.ReImage(exp, func(pp []model.Part) []model.XPart { return model.ImageInsert(pp, ii, len(guestB), embed) })
+				want = append(append(append([]byte{}, want[:i]...), guestB...), want[i:]...)
 			}
-			g := got[gen.Label(f)]
-			if len(g) != 1 {
-				viol("feature-not-once", gen.Label(f)+" once", fmt.Sprint(len(g)))
+			if !bytes.Equal(out0.Bytes(), want) {
+				viol("residues", fmt.Sprintf("%q (guest %q at %v)", want, guestB, idx), fmt.Sprintf("%q", out0.Bytes()))
 				return
 			}
-			v, why, _ := model.CompareImage(exp, model.Parts(g[0].Loc), model.CmpOpt{MaxCoord: len(want), IgnoreSites: true})
-			if v == model.VBad {
-				viol("feature-"+why, fmt.Sprintf("%s %s -> %s", gen.Label(f), model.SafeString(f.Loc), model.XPartsString(exp)), model.SafeString(g[0].Loc))
-				return
+			if fasta {
+				continue
+			}
+			embed := len(flags) > 0
+			got := x.featuresByLabel(out0)
+			for _, f := range rec.tab {
+				exp := model.ImageIdentity(model.Parts(f.Loc))
+				for _, i := range idx {
+					ii := i
+					exp = model.ReImage(exp, func(pp []model.Part) []model.XPart { return model.ImageInsert(pp, ii, len(guestB), embed) })
+				}
+				g := got[gen.Label(f)]
+				if len(g) != 1 {
+					viol("feature-not-once", gen.Label(f)+" once", fmt.Sprint(len(g)))
+					return
+				}
+				v, why, _ := model.CompareImage(exp, model.Parts(g[0].Loc), model.CmpOpt{MaxCoord: len(want), IgnoreSites: true})
+				if v == model.VBad {
+					viol("feature-"+why, fmt.Sprintf("%s %s -> %s", gen.Label(f), model.SafeString(f.Loc), model.XPartsString(exp)), model.SafeString(g[0].Loc))
+					return
+				}
 			}
 		}
 	case "rotate":
